@@ -14,6 +14,7 @@ EXPLANATION = (
     "This decides the structural necessary conditions only; The encode_number residual is evaluated as an exact piecewise-affine function of the tick count (piece.py): interval returned, raise type outside it, wrap constant for negative values -- any spelling of the range test and of the two's-complement step. UNDECIDED: exactness of round(n*r/r)==n for every n < 2^48 and every "
     "resolution, the double-rounding clause for 64-bit fields (numeric facts, not shape facts)."
     ' GEN-ENC / ENC-MASK: when the returned bytes are not <int>.to_bytes(..) of OR-ed masked pieces (sums, modulo, struct.pack, joined parts), the return term is read as a vector of bits, each a constant 0 or bit k of one producer; maximal runs give (producer, width, position) rows that are checked like the OR-pieces.'
+    ' Fifth round: [ENC-STATE] every use of self.<attr> in the encoder is classified (read / write / not visible): bound in __init__ and only read is configuration, written and read after construction is state between messages (violation), anything else is undecided. When the encode_number residual is not of the piecewise form it is decided on points (tick counts around every boundary, None): ENC-RANGE / SENT-AGREE / SIGN-AGREE then rest on sampled points. An encode_time call site that was not read and a payload assembled by a loop the guard extractor only approximates give no verdict.'
 )
 ASSUMPTIONS = ["CPython ast parser", "canboat.json is the oracle", "sym.py partial evaluation (constant folding, helper inlining)",
                "Python int/round semantics: int() truncates, round() rounds to nearest"]
